@@ -71,6 +71,15 @@ def parseRule (t : String) : Option Rule :=
   | ["upd", n] => n.toNat?.map Rule.upd
   | _ => none
 
+/-- `-` (the listener never acts) or `<rule>/<kw>`: when the rule holds the handler issues `update(**kw)` -/
+def parseAct (t : String) : Option (Store → List Name → Option (List (Name × Val))) :=
+  if t = "-" then some (fun _ _ => none)
+  else match t.splitOn "/" with
+    | [r, kw] => match parseRule r, parseKw kw with
+      | some r, some kw => some (fun s u => if r.eval s u then some kw else none)
+      | _, _ => none
+    | _ => none
+
 def showAtom : Atom → String
   | .b x => if x then "b1" else "b0"
   | .s x => "s" ++ showBytes x
@@ -115,20 +124,20 @@ def stepLine (st : St) (line : String) : St × String :=
   | ["new"] => (St.empty, "ok")
   | ["add", n, ty, v] => reply st do
       let n ← n.toNat?; let ty ← parseTy ty; let v ← parseVal v
-      pure (addOption st n ty v)
-  | ["sub", id, rule, names] => reply st do
-      let id ← id.toNat?; let rule ← parseRule rule; let ns ← parseNames names
-      pure (subscribe st ⟨id, some ns, rule.eval⟩)
-  | ["conn", id, rule] => reply st do
-      let id ← id.toNat?; let rule ← parseRule rule
-      pure (subscribe st ⟨id, none, rule.eval⟩)
-  | ["upd", kw] => reply st ((parseKw kw).map (update st))
-  | ["updk", kw] => reply st ((parseKw kw).map (updateKnown st))
-  | ["updd", kw] => reply st ((parseKw kw).map (updateDefer st))
+      pure (addOptionN st n ty v)
+  | ["sub", id, rule, names, act] => reply st do
+      let id ← id.toNat?; let rule ← parseRule rule; let ns ← parseNames names; let a ← parseAct act
+      pure (subscribe st ⟨id, some ns, rule.eval, a⟩)
+  | ["conn", id, rule, act] => reply st do
+      let id ← id.toNat?; let rule ← parseRule rule; let a ← parseAct act
+      pure (subscribe st ⟨id, none, rule.eval, a⟩)
+  | ["upd", kw] => reply st ((parseKw kw).map (updateN st))
+  | ["updk", kw] => reply st ((parseKw kw).map (updateKnownN st))
+  | ["updd", kw] => reply st ((parseKw kw).map (updateDeferN st))
   | ["set", d, specs] =>
-      if d = "0" ∨ d = "1" then reply st ((parseSpecs specs).map fun s => setSpecs st s (d == "1")) else (st, "bad-op")
-  | ["pd"] => reply st (some (processDeferred st))
-  | ["rst"] => reply st (some (reset st))
+      if d = "0" ∨ d = "1" then reply st ((parseSpecs specs).map fun s => setSpecsN st s (d == "1")) else (st, "bad-op")
+  | ["pd"] => reply st (some (processDeferredN st))
+  | ["rst"] => reply st (some (resetN st))
   | ["save"] =>
       match saveLoad idYaml st.opts with
       | some r => (st, showOut r.out ++ " " ++ showStore r.st.opts)
